@@ -52,7 +52,17 @@ def gating(prog, chk):
                 named = [x for x in o[1][1] if x.startswith(".")]
                 name = named[-1] if named else pp.local_name(o[1][0])
             conds.append((name, x == tt))
-        has_root = ("has_svg_element", True) in conds
+            # the `root <svg> was found` flag, recognised by dataflow rather than by name: a bool local all of whose
+            # definitions are constants, set to true after write_root_svg() was called
+            if o[0] == "place" and not o[1][1] and x == tt:
+                from props.C02 import _flag_like
+                l = o[1][0]
+                if _flag_like(pp, l):
+                    roots = [rb for (rb, rt, rc) in pp.call_sites(R.path_endswith("Transformer::write_root_svg"))]
+                    for d in pp.defs_of(l):
+                        if d[1] != R.TERM and d[2]["k"] == "use" and (op_const(d[2]["op"]) or {}).get("bool") is True and any(pp.dominates(rb, d[0]) for rb in roots):
+                            conds.append(("<root-found flag>", True))
+        has_root = ("<root-found flag>", True) in conds
         on = (".add_auto_styles", True) in conds
         not_real = (".real_svg", False) in conds or any(n == ".real_svg" and not v for n, v in conds)
         chk.ob(
@@ -61,7 +71,7 @@ def gating(prog, chk):
             "postprocess:write_auto_styles",
             pp.where(bb, t.get("line")),
             "styles/defs are injected only when the document has a root <svg> and add_auto_styles is on",
-            f"write_auto_styles is not guarded by both `has_svg_element` and `add_auto_styles` (dominating conditions: {conds})",
+            f"write_auto_styles is not guarded by both the `root <svg> found` flag and `add_auto_styles` (dominating conditions: {conds})",
         )
         chk.ob(not_real, "A13.style-gating", "postprocess:not-real-svg", pp.where(bb, t.get("line")), "style injection is unreachable for real SVG", "style injection is reachable for real SVG documents")
     # has_svg_element is set only when the root was found
